@@ -1,0 +1,19 @@
+//go:build verif
+
+// Contracts for package config, checked by /verif. Comments only.
+package config
+
+// Reading the database is outside the verified text.
+//@ func Integrations props=C20 trusted modifies=ext
+
+// C20: file and database integrations are merged by name and the file wins on
+// a clash: a result whose name is the name of a file integration IS a file
+// integration (never the database row of that name).
+//@ func (Root).AllIntegrations props=C20
+//@   ensures [file-wins] result1 == nil ==> (forall k int, j int :: 0 <= k && k < len(result0) && 0 <= j && j < len(conf.Integrations) && result0[k].Name == conf.Integrations[j].Name ==> (exists j2 int :: 0 <= j2 && j2 < len(conf.Integrations) && result0[k] == conf.Integrations[j2]))
+//@   loop#0 invariant forall x string :: has(uniq, x) ==> uniq[x].Name == x
+//@   loop#1 invariant forall x string :: has(uniq, x) ==> uniq[x].Name == x
+//@   loop#1 invariant forall j int :: 0 <= j && j <= rangeindex ==> has(uniq, conf.Integrations[j].Name) && (exists j2 int :: 0 <= j2 && j2 < len(conf.Integrations) && uniq[conf.Integrations[j].Name] == conf.Integrations[j2])
+//@   loop#2 invariant forall k int :: 0 <= k && k < len(res) ==> has(uniq, res[k].Name) && res[k] == uniq[res[k].Name]
+//@   loop#2 invariant cap(res) == 0 || base(res) != base(conf.Integrations)
+//@   loop#2 invariant forall j int :: 0 <= j && j < len(conf.Integrations) ==> conf.Integrations[j] == old(conf.Integrations[j])
